@@ -80,9 +80,8 @@ impl Matrix {
         if self.is_square() {
             for i in 0..self.nrows {
                 for j in i..self.ncols {
-                    if (self.data[i * self.ncols + j] - self.data[j * self.nrows + i]).abs()
-                        > f64::EPSILON
-                    {
+                    let (u, l) = (self.data[i * self.ncols + j], self.data[j * self.nrows + i]);
+                    if (u - l).abs() > f64::EPSILON * u.abs().max(l.abs()) {
                         return false;
                     }
                 }
